@@ -270,12 +270,12 @@ def scenarios(tier):
     # transactions (a poll that has only selected so far is overtaken)
     for impl in ('default', 'legacy'):
         add(impl[0] + '2i-1j-overlap', 2, [J('a', 1, 'k')], impl=impl,
-            rp=True, bound=2 if quick else 4)
+            rp=True, bound=2 if quick else None)
         add(impl[0] + '2i-2j-overlap', 2,
             [J('a', 0, 'k'), J('b', 1, 'k', by=1)], impl=impl, rp=True,
-            bound=1 if quick else 3)
+            bound=1 if quick else None)
     add('d3i-1j-overlap', 3, [J('a', 0, 'k')], rp=True,
-        bound=1 if quick else 3)
+        bound=1 if quick else None)
 
     for impl in ('default', 'legacy'):
         p = impl[0]
@@ -292,21 +292,21 @@ def scenarios(tier):
         add(p + '2i-1j', 2, [J('a', 1, 'k')], impl=impl,
             bound=None if not quick else 3)
         add(p + '2i-2j', 2, [J('a', 0, 'k'), J('b', 1, 'k', by=1)], impl=impl,
-            bound=2 if quick else 4)
+            bound=2 if quick else None)
     add('d2i-1j-crash0', 2, [J('a', 0, 'k')], crash=0,
         bound=3 if quick else None)
     add('d2i-1j-d1-crash0', 2, [J('a', 1, 'k')], crash=0,
         bound=2 if quick else None)
     add('d2i-2j-crash0', 2, [J('a', 0, 'k'), J('b', 1, 'q')], crash=0,
-        bound=2 if quick else 3)
+        bound=2 if quick else None)
     add('d3i-1j-crash0', 3, [J('a', 0, 'k')], crash=0,
-        bound=2 if quick else 3)
+        bound=2 if quick else None)
     add('d3i-2j', 3, [J('a', 0, 'k'), J('b', 0, 'k', by=1)],
-        bound=1 if quick else 3)
+        bound=1 if quick else None)
     add('d1i-3j', 1, [J('a', 0, 'k'), J('b', 1, 'k'), J('c', 2, 'q')],
         bound=2 if quick else None)
     add('d2i-3j', 2, [J('a', 0, 'k'), J('b', 1, 'q', by=1),
-                      J('c', 2, 'k', at=1)], bound=1 if quick else 3)
+                      J('c', 2, 'k', at=1)], bound=1 if quick else None)
     return S
 
 
